@@ -160,10 +160,12 @@ func (p *Path) vpIntrinsic(caller *frame, fn *ssa.Function, name string, args []
 		// vp_Stub("full name of real function", replacement)
 		target := p.strArg(args[0], "target")
 		switch f := args[1].(type) {
-		case *ssa.Function:
+		case *ssa.Function, *Closure:
 			p.stubs[target] = f
+		case Iface:
+			p.stubs[target] = f.V
 		default:
-			p.abortf("vp_Stub: replacement must be a plain function, got %T", f)
+			p.abortf("vp_Stub: replacement must be a function, got %T", f)
 		}
 		return nil
 	case "vp_Unstub":
